@@ -599,9 +599,17 @@ def report(mod, prop, tier, seed, results, wall, verbose=False):
             unknowns.append((r["key"], u))
         if r["shadow"] is not None:
             shadow_runs += 1
-            if r["shadow"]["failed"] or r["shadow"]["note"]:
+            if r["shadow"]["failed"]:
+                # the unstubbed float64 code violates an obligation on the harness's default inputs although the
+                # symbolic run proved it: a gap of the model, and at the same time a reproduced violation of the
+                # real code -- reported as such (found by the differential shadow run, not by the solver)
                 shadow_bad += 1
-                errors.append((r["key"], f"shadow run disagrees with the symbolic verdict: {r['shadow']}"))
+                k0, i0 = r["shadow"]["failed"][0]
+                r["violations"].append(dict(ob=k0, info=f"(shadow run on default inputs; symbolic run did not see it) {i0 or ''}", inputs={},
+                                            replay_failed=r["shadow"]["failed"], reproduced=True))
+            elif r["shadow"]["note"]:
+                shadow_bad += 1
+                errors.append((r["key"], f"shadow run could not be evaluated: {r['shadow']}"))
         for v in r["violations"]:
             rec = dict(property=prop, harness=r["h"], config=r["key"], obligation=v["ob"], info=v["info"], inputs=v["inputs"],
                        replay_failed=v.get("replay_failed"))
